@@ -113,11 +113,32 @@ def check_ensure_running(alive: List[bool], spawn_ok: List[bool], reap_fails: Li
     return ok
 
 
-def check_identity_inherited(fd: int, pid: int, mpfd: int, mppid: int, init_main: bool) -> bool:
+def check_identity_inherited(fd: int, pid: int, mpfd: int, mppid: int, init_main: bool, main_kind: int) -> bool:
     """
     pre: fd >= 3 and pid >= 2 and mpfd >= 3 and mppid >= 2
+    pre: 0 <= main_kind <= 2
     post: _
     """
+    import sys
+    import types
+    # the parent's __main__: started as `python -m pkg.mod` (spec name), as a script (__file__), or neither
+    fake_main = types.ModuleType("__main__")
+    if main_kind == 0:
+        fake_main.__spec__ = NS(name="pkg.mod")
+    elif main_kind == 1:
+        fake_main.__spec__ = None
+        fake_main.__file__ = "/some/script.py"
+    else:
+        fake_main.__spec__ = None
+    real_main = sys.modules["__main__"]
+    sys.modules["__main__"] = fake_main
+    try:
+        return _identity_inherited(fd, pid, mpfd, mppid, init_main, main_kind)
+    finally:
+        sys.modules["__main__"] = real_main
+
+
+def _identity_inherited(fd, pid, mpfd, mppid, init_main, main_kind):
     log = Log()
     parent = NS(ensure_running=lambda: log.add("ensure"), _fd=fd, _pid=pid)
     mpparent = NS(ensure_running=lambda: log.add("mp-ensure"), _fd=mpfd, _pid=mppid)
@@ -129,7 +150,8 @@ def check_identity_inherited(fd: int, pid: int, mpfd: int, mppid: int, init_main
     finally:
         rt._resource_tracker, mprt._resource_tracker = saved[:2]
     has_main = ("init_main_from_name" in data) or ("init_main_from_path" in data)
-    if has_main != init_main:
+    # under the default start method (init_main_module=False) the child is never told to re-run __main__
+    if has_main != (init_main and main_kind != 2):
         return False
     if log.count("ensure") != 1 or log.count("mp-ensure") != 1:
         return False
@@ -149,4 +171,4 @@ def check_identity_inherited(fd: int, pid: int, mpfd: int, mppid: int, init_main
         (rt._resource_tracker, mprt._resource_tracker, sp._fixup_main_from_name,
          sp._fixup_main_from_path) = saved
     return (child._fd == fd and child._pid == pid and mpchild._fd == mpfd and mpchild._pid == mppid
-            and log.count("fixup", True) == (1 if init_main else 0) and log.count("fixup", False) == 0)
+            and log.count("fixup", True) == (1 if has_main else 0) and log.count("fixup", False) == 0)
